@@ -150,3 +150,108 @@ Example d26_schedule_fixed :
   let w := frun d26_fails true (d26_sched ++ [0; 0; 0; 0; 0; 0]) (finit d26_plan) in
   fw_queue w = [] /\ begun (fw_log w) = [(0, 0); (1, 0)].
 Proof. vm_compute. split; reflexivity. Qed.
+
+(* ---------- mutual exclusion also with failing callbacks ---------- *)
+From PySM Require Import Proofs.ConcProofs.
+
+Record FLog (w : fworld) : Prop := {
+  flog_closed : (forall t, f_pc (fw_threads w t) <> FProc) -> closed (fw_log w);
+  flog_open : forall t, f_pc (fw_threads w t) = FProc -> exists e, opened (fw_log w) e t
+}.
+
+Lemma flog_init plan : FLog (finit plan).
+Proof. constructor; simpl; [intros _; constructor | intros t H; discriminate]. Qed.
+
+Section FixedLog.
+  Variable fails : event -> bool.
+  Variable fixed : bool.
+
+  (* whoever holds the lock is the only thread that can be inside callbacks *)
+  Lemma only_holder_in_proc w t t' :
+    FInv w -> fw_holder w = Some t -> f_pc (fw_threads w t') = FProc -> t' = t.
+  Proof.
+    intros I H P. assert (E : fw_holder w = Some t') by (apply (finv_holder _ I); rewrite P; reflexivity).
+    congruence.
+  Qed.
+
+  Lemma flog_step w t : FInv w -> FLog w -> FLog (fstep fails fixed w t).
+  Proof.
+    intros I L. unfold fstep.
+    destruct (f_pc (fw_threads w t)) eqn:P.
+    - (* FIdle *)
+      destruct (f_todo (fw_threads w t)) as [|e r] eqn:T; [exact L|].
+      constructor; simpl.
+      + intros H. apply (flog_closed _ L). intros t'. specialize (H t'). other t' t N; [rewrite P; discriminate|exact H].
+      + intros t' H. other t' t N; [discriminate|]. apply (flog_open _ L). exact H.
+    - (* FAcq *)
+      destruct (fw_holder w) as [h|] eqn:Hh; constructor; simpl.
+      + intros H. apply (flog_closed _ L). intros t'. specialize (H t'). other t' t N; [rewrite P; discriminate|exact H].
+      + intros t' H. other t' t N; [discriminate|]. apply (flog_open _ L). exact H.
+      + intros H. apply (flog_closed _ L). intros t'. specialize (H t'). other t' t N; [rewrite P; discriminate|exact H].
+      + intros t' H. other t' t N; [discriminate|]. apply (flog_open _ L). exact H.
+    - (* FTest *)
+      assert (Ht : fw_holder w = Some t) by (apply (finv_holder _ I); rewrite P; reflexivity).
+      assert (NoProc : forall t', f_pc (fw_threads w t') <> FProc).
+      { intros t' E. pose proof (only_holder_in_proc w t t' I Ht E) as ->. congruence. }
+      destruct (fw_queue w) as [|e q] eqn:Q; constructor; simpl.
+      + intros _. apply (flog_closed _ L). exact NoProc.
+      + intros t' H. other t' t N; [discriminate|]. exfalso. eapply NoProc; eauto.
+      + intros H. exfalso. apply (H t). rewrite fupd_same. reflexivity.
+      + intros t' H. other t' t N.
+        * exists e, (fw_log w). split; auto. apply (flog_closed _ L). exact NoProc.
+        * exfalso. eapply NoProc; eauto.
+    - (* FProc *)
+      assert (Ht : fw_holder w = Some t) by (apply (finv_holder _ I); rewrite P; reflexivity).
+      destruct (flog_open _ L t P) as (e0 & l0 & Hc & Hl).
+      assert (Elast : match rev (fw_log w) with Begin e _ :: _ => e | _ => (0, 0) end = e0).
+      { rewrite Hl, last_begin. reflexivity. }
+      rewrite Elast.
+      assert (Hnew : closed (fw_log w ++ [End e0 t])).
+      { rewrite Hl, <- app_assoc. simpl. constructor. exact Hc. }
+      destruct (fails e0); constructor; simpl.
+      + intros _. exact Hnew.
+      + intros t' H. other t' t N; [discriminate|].
+        pose proof (only_holder_in_proc w t t' I Ht H). contradiction.
+      + intros _. exact Hnew.
+      + intros t' H. other t' t N; [discriminate|].
+        pose proof (only_holder_in_proc w t t' I Ht H). contradiction.
+    - (* FRel *)
+      constructor; simpl.
+      + intros H. apply (flog_closed _ L). intros t'. specialize (H t'). other t' t N; [rewrite P; discriminate|exact H].
+      + intros t' H. other t' t N; [discriminate|]. apply (flog_open _ L). exact H.
+    - (* FRecheck *)
+      constructor; simpl.
+      + intros H. apply (flog_closed _ L). intros t'. specialize (H t'). other t' t N; [rewrite P; discriminate|exact H].
+      + intros t' H. other t' t N; [destruct (fw_queue w); discriminate|]. apply (flog_open _ L). exact H.
+    - (* FRelF *)
+      constructor; simpl.
+      + intros H. apply (flog_closed _ L). intros t'. specialize (H t'). other t' t N; [rewrite P; discriminate|exact H].
+      + intros t' H. other t' t N; [destruct fixed; discriminate|]. apply (flog_open _ L). exact H.
+  Qed.
+End FixedLog.
+
+Section FixedRun.
+  Variable fails : event -> bool.
+
+  Lemma both_run : forall sched w, FInv w -> FLog w ->
+    FInv (frun fails true sched w) /\ FLog (frun fails true sched w).
+  Proof.
+    induction sched as [|t r IH]; intros w I L; simpl; auto.
+    apply IH; [apply finv_step; exact I | apply flog_step; assumption].
+  Qed.
+
+  (* the callback blocks of different events never overlap, whatever fails, whatever the schedule *)
+  Theorem mutual_exclusion_with_failures plan sched :
+    let w := frun fails true sched (finit plan) in
+    closed (fw_log w) \/ exists e t, opened (fw_log w) e t.
+  Proof.
+    intros w. destruct (both_run sched _ (finv_init plan) (flog_init plan)) as (I & L). fold w in I, L.
+    destruct (fw_holder w) as [h|] eqn:H.
+    - destruct (f_pc (fw_threads w h)) eqn:P;
+        try (left; apply (flog_closed _ L); intros t E;
+             pose proof (only_holder_in_proc w h t I H E); subst; congruence).
+      right. destruct (flog_open _ L h P) as (e & O). eauto.
+    - left. apply (flog_closed _ L). intros t E.
+      assert (fw_holder w = Some t) as X by (apply (finv_holder _ I); rewrite E; reflexivity). congruence.
+  Qed.
+End FixedRun.
